@@ -92,8 +92,9 @@ static const char *show_list(char **v, size_t n)
 }
 
 /* ------------------------------------------------------------------ split / tok / join against the reference */
-static const char *DSETS[3] = { NULL, ":", ": " };
-static const char *DNAME[3] = { "default", "\":\"", "\": \"" };
+/* the last one is the empty set: nothing separates, the whole text is one token (quotes and backslashes still apply) */
+static const char *DSETS[4] = { NULL, ":", ": ", "" };
+static const char *DNAME[4] = { "default", "\":\"", "\": \"", "\"\" (empty set)" };
 
 static void check_split_tok_join(const char *s0, int d, int small)
 {
@@ -130,6 +131,12 @@ static void check_split_tok_join(const char *s0, int d, int small)
         spif_tok_t t = spif_tok_new_from_ptr((spif_charptr_t) s);
         VH_CHECK(!SPIF_TOK_ISNULL(t), "tok:new", "spif_tok_new_from_ptr(%s) returned NULL", vh_qs(s0));
         if (dl) spif_tok_set_sep(t, spif_str_new_from_ptr((spif_charptr_t) dl));
+        if (vh_coin(20)) {           /* a copy of a configured tokenizer is the same tokenizer */
+            spif_tok_t c = spif_tok_dup(t);
+            VH_CHECK(!SPIF_TOK_ISNULL(c), "tok:dup", "spif_tok_dup returned NULL");
+            spif_tok_del(t); t = c;
+            vh_count("tok_evals_on_a_copy", 1);
+        }
         spif_bool_t ok = spif_tok_eval(t);
         vh_evals(1);
         VH_CHECK(ok, "tok:eval-refused", "spif_tok_eval refused src=%s", vh_qs(s0));
@@ -187,7 +194,7 @@ static void check_split_tok_join(const char *s0, int d, int small)
             for (const char *c = t; *c; c++) if (is_q(*c) || *c == '\\' || ref_is_delim(dl0, *c)) plain = 0;
             if (plain) pl[np++] = vh_heapstr(t);
         }
-        if (np) {
+        if (np && !(dl0 && !*dl0)) {
             const char *seps[3]; int nsep = 0;
             if (!dl0) { seps[nsep++] = " "; seps[nsep++] = "\t"; seps[nsep++] = " \n "; }
             else if (d == 1) { seps[nsep++] = ":"; seps[nsep++] = "::"; }
@@ -433,7 +440,7 @@ int main(int argc, char **argv)
             else s = gen_random();
             /* CPU-time backstop for the whole case (a few hundred scans of a string of at most 2 kB): a scanner that stops advancing is reported, not waited for */
             if (VH_GUARD_TRY(5)) {
-                for (int d = 0; d < 3; d++) check_split_tok_join(s, d, is_small);
+                for (int d = 0; d < 4; d++) check_split_tok_join(s, d, is_small);
                 check_words(s, is_small);
                 vh_guard_end();
             } else vh_fail("non-termination", "split/tok/word utilities used more than 5 s of CPU time on %s", vh_qs(s));
